@@ -25,6 +25,10 @@ func runC04(c *Ctx) {
 
 	c.Rule("R04e", "dependencies(): every edge `deps[K] = append(deps[K], V)` is consistent with its guard: an add-edge (K = change.T.Name, V = fk.RefTable) is guarded by `fk.RefTable != change.T` on the same fk; a drop-edge (K = fk.RefTable.Name, V = fk.Table) by isDropped(changes, fk.RefTable)", 2)
 	c.Rule("R04f", "dependsOn: the tables of the two changes are compared by pointer only when both changes are ModifyTable (AddTable/DropTable tables may be copies made by detachReferences; identity there is name + schema)", 1)
+	c.Rule("R04g", ruleTextSortSelf, 5)
+	checkSortSelf(c, "R04g")
+	c.Rule("R04h", ruleTextEmitRegrouped, 1)
+	checkEmitRegrouped(c, "R04h")
 	checkDependencyEdges(c)
 	checkPointerIdentity(c)
 	for _, pp := range []string{pMysql, pPostgres} {
